@@ -1,0 +1,47 @@
+//go:build verif
+
+package database
+
+import (
+	"time"
+
+	"github.com/Vedant9500/WTF/internal/cache"
+	"github.com/Vedant9500/WTF/internal/embedding"
+)
+
+// VerifBM25F exposes the BM25F parameters in force (read-only copy).
+type VerifBM25F struct {
+	K1                        float64
+	WCmd, WDesc, WKeys, WTags float64
+	BCmd, BDesc, BKeys, BTags float64
+	MinIDF                    float64
+}
+
+// VerifBM25FParams returns the BM25F parameters a freshly built index uses.
+func VerifBM25FParams() VerifBM25F {
+	p := defaultParams()
+	return VerifBM25F{
+		K1:   p.k1,
+		WCmd: p.w.cmd, WDesc: p.w.desc, WKeys: p.w.keys, WTags: p.w.tags,
+		BCmd: p.b.cmd, BDesc: p.b.desc, BKeys: p.b.keys, BTags: p.b.tags,
+		MinIDF: p.minIDF,
+	}
+}
+
+// VerifAttachEmbeddings attaches (or detaches, with nil) an in-memory embedding index.
+func (db *Database) VerifAttachEmbeddings(idx *embedding.Index) { db.embeddingIndex = idx }
+
+// VerifAdvance ages every cached entry by d.
+func (cdb *CachedDatabase) VerifAdvance(d time.Duration) { cdb.cacheManager.VerifAdvance(d) }
+
+// VerifNewCachedDatabase wraps db with a cache of caller-chosen capacity and TTL.
+func VerifNewCachedDatabase(db *Database, capacity int, ttl time.Duration) *CachedDatabase {
+	return &CachedDatabase{Database: db, cacheManager: cache.VerifNewManager(capacity, ttl)}
+}
+
+// VerifNewMonitoredDatabase is NewMonitoredDatabase over a caller-chosen cache.
+func VerifNewMonitoredDatabase(db *Database, capacity int, ttl time.Duration) *MonitoredDatabase {
+	m := NewMonitoredDatabase(db)
+	m.CachedDatabase = VerifNewCachedDatabase(db, capacity, ttl)
+	return m
+}
